@@ -102,3 +102,37 @@ Proof.
   - intros v Kv. rewrite (HL v Kv), Hn.
     pose proof (p_bound m L PI v (Hk v Kv)) as Bv. lia.
 Qed.
+
+(** * findY: the probe needs no bound (round 3, seeded change C19-g)
+
+    At most [length tak] rows are taken, the probe visits the pairwise
+    distinct rows [yavg], [yavg+1], ... on its way out, so it ends within
+    [length tak + 1] offsets - for ANY layer width - and the row it returns
+    has just been tested free. *)
+Theorem findY_probe_terminates_within_width : forall tak yavg,
+  exists y, find_y (S (length tak)) tak yavg 0 = Some y /\ zmem y tak = false.
+Proof.
+  intros tak yavg. destruct (find_y (S (length tak)) tak yavg 0) as [y|] eqn:E.
+  - exists y. split; [reflexivity | eapply find_y_free; exact E].
+  - exfalso. eapply find_y_total; exact E.
+Qed.
+
+(** more fuel changes nothing: the unbounded loop of the source *)
+Lemma find_y_more_fuel : forall f tak yavg off y,
+  find_y f tak yavg off = Some y -> forall f', f <= f' -> find_y f' tak yavg off = Some y.
+Proof.
+  induction f as [|f IH]; intros tak yavg off y H f' Hle; [discriminate|].
+  destruct f' as [|f']; [lia|]. cbn [find_y] in *.
+  destruct (negb (zmem (yavg + off) tak)); [exact H|].
+  destruct (negb (zmem (yavg - off) tak)); [exact H|].
+  apply (IH _ _ _ _ H). lia.
+Qed.
+
+(** A probe bounded at [b] offsets with an unchecked fall-back is refuted:
+    with the rows 0, 1, -1, 2 taken (|offset| < 2 exhausted) and bound 2 it
+    hands out row 2 - a taken row; the unbounded probe returns -2. *)
+Lemma bounded_probe_refuted :
+  let tak := [0; 1; -1; 2]%Z in
+  find_y_bounded 2 tak 0 0 = 2%Z /\ zmem 2 tak = true /\
+  find_y (S (length tak)) tak 0 0 = Some (-2)%Z.
+Proof. vm_compute. repeat split; reflexivity. Qed.
